@@ -118,12 +118,24 @@ for _k, _p in FILES.items():
 GIF_PROPS = {k: k.endswith(".gif") for k in FILES}  # is_animated / n_frames are computed properties
 
 # sizes the iterator cases switch between (id -> how to set it); all give distinct rendered sizes
-SIZES = [("w", 3), ("w", 4), ("h", 1), ("wh", (5, 2)), ("dyn", "ORIGINAL")]
+SIZES = [("w", 3), ("w", 4), ("h", 1), ("wh", (5, 2)), ("dyn", "ORIGINAL"),
+         # one and the same dynamic setting (Size.FIT) under two terminal sizes: going from one to the other is a
+         # terminal resize — the size *setting* does not change, the rendered size does
+         ("dynfit", (20, 10)), ("dynfit", (12, 6))]
+TERM0 = (80, 30)
+
+
+def term_of(sid):
+    return SIZES[sid][1] if SIZES[sid][0] == "dynfit" else TERM0
 
 
 def set_size(image, sid):
     how, v = SIZES[sid]
-    if how == "w":
+    env.set_env(term_size=term_of(sid))     # the controlled terminal (outermost boundary), as `env` does it
+    if how == "dynfit":
+        if image._size is not Size.FIT:
+            image.size = Size.FIT
+    elif how == "w":
         image.set_size(width=v)
     elif how == "h":
         image.set_size(height=v)
@@ -644,6 +656,14 @@ class C11(Property):
                                       (["d", "k 0", "d", "n", "k 0", "d"], 1, 2, True)):
                 yield self.iter_case(style, "a.gif", "pil", "float", method, rep_, True, False, 5, 0, s0, ops,
                                      "iter-pilmoved", pil0=p0)
+        # a dynamically sized image (Size.FIT never changes) whose terminal is resized after frames were cached, between
+        # and within loops: every yielded frame must be format(image, spec) at the CURRENT terminal size
+        for style, method in (("block", ""), ("kitty", "L"), ("iterm2", "W")):
+            yield self.iter_case(style, "a.gif", "file", "float", method, 3, True, True, 5, 5, 0,
+                                 ["n"] * 3 + ["z 6"] + ["n"] * 2 + ["z 5"] + ["n"] * 2 + ["z 6", "n", "n", "d"],
+                                 "iter-termresize")
+            yield self.iter_case(style, "b.gif", "pil", "float", method, -1, True, True, 5, 6, 0,
+                                 ["n", "n", "n", "z 5", "n", "n", "s 0", "n"], "iter-termresize")
         # cached iterators with non-default style arguments whose size changes after the first loop: the frames
         # re-rendered from then on must still be format(image, spec) — spec's style arguments included
         for style, method in (("kitty", "Wz7m1c9"), ("kitty", "Lz-2"), ("iterm2", "Wm1c9"), ("iterm2", "Lm1")):
@@ -756,6 +776,10 @@ class C11(Property):
     def iter_case(self, style, fname, src, alpha, method, rep, is_bool, bv, n, size0, seek0, ops, kind, pil0=False):
         nf = NFRAMES[fname]
         spec = spec_of(style, alpha, method)
+        if size0 >= 5 or any(o in ("z 5", "z 6") for o in ops):
+            # the terminal gets resized: relative padding is resolved once, when the iterator is made (against the
+            # terminal of that moment) — use absolute, ineffective padding so that frames stay comparable
+            spec = "1.1" + spec
         line = (f"iter {style}/{fname}/{src} {spec.encode().hex()} {nf} {rep} {b(is_bool)} {b(bv)} {n} {size0} {seek0} "
                 f"{len(ops)} " + " ".join(ops))
         d = dict(style=style, fname=fname, src=src, spec=spec, rep=rep, cached=(bv if is_bool else n),
@@ -947,6 +971,7 @@ class C11(Property):
         key = (style, fname, spec, sid)
         if key not in self.direct:
             fspec = spec.replace("+A", "+W")  # native-animation requests fall back to whole-image frames
+            cur_term = env.state["term_size"]
             image, _ = make_image(style, fname, "file")
             set_size(image, sid)
             out = []
@@ -955,6 +980,7 @@ class C11(Property):
                 out.append(format(image, fspec))
             rs = image.rendered_size
             image.close()
+            env.set_env(term_size=cur_term)
             self.direct[key] = (out, rs)
         return self.direct[key]
 
@@ -1072,9 +1098,12 @@ class C11(Property):
             out.append(f"{ans} {image.tell()} {'none' if it.loop_no is None else it.loop_no}")
         # size setting untouched by rendering
         how, v = SIZES[sid]
+        env.set_env(term_size=TERM0)
+        if how == "dynfit" and image._size is not Size.FIT:
+            obs.size_ok = False
         if how == "dyn" and image._size is not Size[v]:
             obs.size_ok = False
-        if how != "dyn" and isinstance(image._size, Size):
+        if how not in ("dyn", "dynfit") and isinstance(image._size, Size):
             obs.size_ok = False
         del it
         image.close()
